@@ -125,6 +125,16 @@ Proof.
   apply in_map_iff in Hb. destruct Hb as [b0 [<- Hb0]]. apply to_cart_exps, E; assumption.
 Qed.
 
+(* asymm_is_offdiag_block for ANY coordinate types *)
+Theorem overlap_asymm_is_offdiag_block_mixed (b1 b2 : list (shell F)) :
+  seg_basis b1 -> seg_basis b2 -> 0 < length b2 ->
+  overlap_integral_asymm K b1 b2 None None
+  = map (skipn (ototal K b1)) (firstn (ototal K b1) (overlap_integral K (b1 ++ b2) None)).
+Proof.
+  intros C1 C2 Hn. unfold overlap_integral_asymm, overlap_integral.
+  apply asymm_is_offdiag_block_mixed; auto. apply overlap_blocks_shaped.
+Qed.
+
 Section OneBasis.
 Variable bs : list (shell F).
 Hypothesis C : seg_basis bs.
